@@ -435,6 +435,26 @@ func main() {
 				bad[pos] ^= 0x01
 				submit(huge, huge.f9, attCase{What: "padding-octet-altered:8192-bit-key", Expect: "reject", Alg: int(h.alg), Position: pos}, bad, nil, tbs)
 			}
+			// many padding octets altered at once: every count, in particular the multiples of 256 and those around them
+			for _, n := range []int{2, 3, 16, 128, 255, 256, 257, 511, 512, 513, 768, 769, last - 2, last - 1} {
+				for _, where := range []string{"from-the-start", "from-the-end", "spread"} {
+					if n < 2 || n > last-1 {
+						continue
+					}
+					bad := append([]byte{}, good...)
+					for i := 0; i < n; i++ {
+						pos := 2 + i
+						switch where {
+						case "from-the-end":
+							pos = last - i
+						case "spread":
+							pos = 2 + i*(last-1)/n
+						}
+						bad[pos] = []byte{0xfe, 0x00, 0x7f}[(i+n)%3]
+					}
+					submit(huge, huge.f9, attCase{What: fmt.Sprintf("padding-octets-altered:%d-%s:8192-bit-key", n, where), Expect: "reject", Alg: int(h.alg), Position: n}, bad, nil, tbs)
+				}
+			}
 		}
 		// the attestors live on while time passes: a device certificate that lapses (or becomes valid) after they were
 		// built is judged at the time of the attestation, not of the construction. First look now, second look at the end.
